@@ -279,7 +279,7 @@ impl<'a> WCtx<'a> {
 
     fn update_fn(&self, u: &mut Src, at: Option<&Y>) -> (String, &'static str) {
         let int_there = matches!(at, Some(Y::Int(_)));
-        match u.below(if int_there { 6 } else { 5 }) {
+        match u.below(if int_there { 8 } else { 5 }) {
             0 => (".".into(), "update:identity"),
             1 => ("tostring".into(), "update:tostring"),
             2 => ("[.]".into(), "update:wrap-array"),
@@ -313,7 +313,14 @@ impl<'a> WCtx<'a> {
                 w.is_write = true;
             }
             3 => {
-                let (p, tag, at) = self.pick_path(u, false);
+                // a third of the updates go to an integer leaf (for `. + 1`), when there is one
+                let ints: Vec<&(Vec<Seg>, &Y)> = self.nodes.iter().filter(|n| matches!(n.1, Y::Int(_))).collect();
+                let (p, tag, at) = if !ints.is_empty() && u.ratio(1, 3) {
+                    let n = *u.pick(&ints);
+                    (n.0.clone(), "path:existing", Some(n.1))
+                } else {
+                    self.pick_path(u, false)
+                };
                 let (f, ftag) = self.update_fn(u, at);
                 w.text = format!("{} |= {}", path_text(&p), f);
                 w.tags.push("update");
